@@ -274,9 +274,17 @@ func ruleReaderWindow(c *Ctx, r *Report, prefix string) {
 		for _, b := range theCtx.GB(fn) {
 			for _, ins := range b.Instrs {
 				if call, ok := callTo(ins, ndd); ok {
-					if x, y, isMax := phiIsMax(call.Call.Args[0]); isMax {
+					arg := call.Call.Args[0]
+					if lt, through := theCtx.lookThrough(arg); through {
+						arg = lt
+					}
+					if x, y, isMax := phiIsMax(arg); isMax {
 						// one side is the header's (clamped) dictCap, the other the configured DictCap
-						if (isFieldLoadOf(x, fHDC) && isDictCapParamField(y, fn)) || (isFieldLoadOf(y, fHDC) && isDictCapParamField(x, fn)) {
+						fCfgDC := c.Field("lzma", "ReaderConfig.DictCap")
+						isCfg := func(v ssa.Value) bool {
+							return isDictCapParamField(v, fn) || (fCfgDC != nil && isFieldLoadOf(stripConv(v), fCfgDC))
+						}
+						if (isFieldLoadOf(x, fHDC) && isCfg(y)) || (isFieldLoadOf(y, fHDC) && isCfg(x)) {
 							okMax = true
 						}
 					}
